@@ -252,12 +252,13 @@ def r_nvra_glue(model, rep):
     cx = facts.fctx(model, f)
     p = ("param", cx.params[0])
     # the string handed to match(): '.rpm' stripped with a slice of the literal's length
-    m = [ev for ev in cx.events if ev.kind == "call" and ev.value[1][0] in ("attr", "global")
-         and ((ev.value[1][0] == "global" and ev.value[1][1].endswith("RPM_NVRA_RE.match")))]
+    nvra_pat = facts.module_regex(model, "common", "RPM_NVRA_RE")
+    m = [ev for ev in cx.events if ev.kind == "call" and ev.value[1] == ("global", "re.match") and len(ev.value[2]) == 2
+         and ev.value[2][0] == ("const", nvra_pat)]
     if not m:
         raise AnalysisError("R-NVRA-GLUE: RPM_NVRA_RE.match(...) not found in parse_nvra")
     mt = m[0].value
-    arg = mt[2][0]
+    arg = mt[2][1]
     ends = [ev for ev in cx.events if ev.kind == "call" and ev.value[1] == ("attr", p, "endswith")]
     ok, msg = True, ""
     if not ends or ends[0].value[2][0][0] != "const":
@@ -381,7 +382,7 @@ def r_pred_wiring(model, rep):
         ok = len(rets) == 1
         if ok:
             v = rets[0].value
-            m = ("call", ("global", "%s.match" % const), (("param", cx.params[0]),), ())
+            m = ("call", ("global", "re.match"), (("const", facts.module_regex(model, "common", const)), ("param", cx.params[0])), ())
             ok = v == ("cmp", ("is not",), (m, ("const", None))) or v == ("call", ("global", "bool"), (m,), ())
         rep.ob("R-PRED-WIRING", "common.%s" % fn, ok, site=cx.site(f.node),
                msg="" if ok else "%s must return whether %s.match(<argument>) succeeded" % (fn, const))
@@ -554,10 +555,8 @@ def r_types_table(model, rep, pats, U):
             acc = False
         rep.ob("R-TYPES-TABLE", "RELEASE_TYPES:%s in L(RELEASE_TYPE_RE)" % t, acc, site="productmd/common.py",
                msg="" if acc else "known release type %r is rejected by is_valid_release_type" % t)
-    # suffix-freeness: otherwise the endswith() loop of the parser depends on table order
-    bad = [(a, b) for a in types for b in types if a != b and b.endswith(a) and types.index(a) < types.index(b)]
-    rep.ob("R-TYPES-TABLE", "RELEASE_TYPES:no-shadowing-suffix", not bad, site="productmd/common.py",
-           msg="" if not bad else "type %r is a proper suffix of the later entry %r: parse_release_id would cut %r short" % (bad[0][0], bad[0][1], bad[0][1]))
+    # (a table entry that is a suffix of a later one can shadow it in the parser's endswith() search: whether it does is decided
+    # by R-RID-ROUNDTRIP on the parser actually in the tree, for every entry of the table)
     # parser uses the table
     f = model.function("common", "_parse_release_id_part")
     cx = facts.fctx(model, f)
